@@ -49,7 +49,11 @@ Fwd(r) == MacroDef("@f", <<>>, S(r))
 Forward == UNION { { [pos |-> "forward_" \o pp[1], ref |-> r, pattern |-> pp[2], defs |-> d]
                      \* (a string macro as the key of an operand list is not a supported use form: the expansion itself fails)
                      : pp \in { q \in Positions("@f") : q[1] # "key_body" }, d \in { <<Fwd(r)>> \o Defs, Defs \o <<Fwd(r)>> } } : r \in {"@a", "@s", "@x"} }
-Base == Direct \cup InName \cup InBody \cup BadName \cup Forward
+\* a reference handed over as the ARGUMENT VALUE of a parameterised macro -- which may be the only definition in play
+D_p == MacroDef("@p", <<"a1">>, L(<<DMap1("push", L(<<S("a1")>>))>>))
+ArgValue == { [pos |-> "arg_value", ref |-> r, pattern |-> L(<<DMap(<<DPair("@p", DNull), DPair("a1", S(r))>>)>>), defs |-> d]
+              : r \in {"@x", "@s", "@p"}, d \in { <<D_p>>, <<D_p>> \o Defs, Defs \o <<D_p>> } }
+Base == Direct \cup InName \cup InBody \cup BadName \cup Forward \cup ArgValue
 \* definitions in the rule file, or all of them in one extra macro file
 Docs == { [pos |-> b.pos, ref |-> b.ref, pattern |-> b.pattern,
            macros |-> IF inFile THEN b.defs ELSE <<>>, xfiles |-> IF inFile THEN <<>> ELSE <<b.defs>>,
